@@ -227,3 +227,71 @@ def _sc_inv(c, k):
         ("all-couplings-of-the-first-groups", FA([j, p, q, x], z3.Implies(z3.And(0 <= j, j < k, 0 <= p, p < n, 0 <= q, q < n, in_names(el[p])[x], out_names(el[q])[x]), sc.member[x]),
                                                  z3.MultiPattern(in_names(el[p])[x], out_names(el[q])[x]))),
     ]
+
+
+# ============================================================================ _compute_weakly_coupled / _compute_weak_couplings
+def weak_spec(w, R, proc):
+    """R lists exactly the weakly coupled disciplines among the processed ones, each once."""
+    j, j2 = z3.Ints("j!ws j2!ws")
+    d = D("d!ws")
+    x = R.elems[j]
+    return [
+        ("only-weakly-coupled", FA([j], z3.Implies(z3.And(0 <= j, j < R.n), z3.And(w.N.member[x], w.weak(x), proc(x))), R.elems[j])),
+        ("all-weakly-coupled", FA([d], z3.Implies(z3.And(w.N.member[d], w.weak(d), proc(d)), z3.Exists([j], z3.And(0 <= j, j < R.n, R.elems[j] == d))), w.st[d])),
+        ("each-once", z3.ForAll([j, j2], z3.Implies(z3.And(0 <= j, j < j2, j2 < R.n), R.elems[j] != R.elems[j2]))),
+    ]
+
+
+@register
+class ComputeWeaklyCoupled(Contract):
+    """_weakly_coupled_disc = the disciplines that are alone in their group and not self-coupled, each once;
+    every discipline is either strongly or weakly coupled, never both."""
+
+    targets = (CS + "._compute_weakly_coupled",)
+    prop = ("C08",)
+    modifies = ("self",)
+    loops = {
+        0: LoopSpec(anchor="self.sequence", inv=lambda c, k: weak_spec(W(c), c.locals["weak_disciplines"], _proc0(W(c), k)), modifies=("weak_disciplines",), local_types={"weak_disciplines": DLIST}),
+        1: LoopSpec(anchor="parallel_tasks", inv=lambda c, k: weak_spec(W(c), c.locals["weak_disciplines"], _proc1(W(c), c, k)), modifies=("weak_disciplines",), local_types={"weak_disciplines": DLIST}),
+    }
+
+    def requires(self, c):
+        return W(c).requires()
+
+    def ensures(self, c):
+        w = W(c)
+        d = D("d!wx")
+        return weak_spec(w, c.new.self._weakly_coupled_disc, lambda x: z3.BoolVal(True)) + [
+            ("strongly-xor-weakly-coupled", FA([d], z3.Implies(w.N.member[d], w.weak(d) == z3.Not(w.strong(d))), w.st[d])),
+        ] + _cs_kept(c.old.self, c.new.self, "_weakly_coupled_disc")
+
+
+def _out_of_first(lst, x, k, tag="wo"):
+    i = z3.Int(f"i!{tag}")
+    return z3.Exists([i], z3.And(0 <= i, i < k, out_names(lst.elems[i])[x]))
+
+
+@register
+class ComputeWeakCouplings(Contract):
+    """_weak_couplings = the outputs of the weakly coupled disciplines (the list computed by _compute_weakly_coupled, read as cached)."""
+
+    targets = (CS + "._compute_weak_couplings",)
+    prop = ("C08",)
+    modifies = ("self",)
+    loops = {0: LoopSpec(anchor="self.weakly_coupled_disciplines", inv=lambda c, k: _wc_inv(c, k), modifies=("weak_couplings",), local_types={"weak_couplings": NAMES})}
+
+    def ensures(self, c):
+        s0, s1 = c.old.self, c.new.self
+        L, r = s0._weakly_coupled_disc, s1._weak_couplings
+        return list_is_set(r.n, r.elems, lambda x: _out_of_first(L, x, L.n), "wcp") + _cs_kept(s0, s1, "_weak_couplings")
+
+
+def _wc_inv(c, k):
+    L = c.old.self._weakly_coupled_disc
+    x = S("x!wci")
+    i = z3.Int("i!wci")
+    wc = c.locals["weak_couplings"]
+    return [
+        ("only-outputs-of-the-first-ones", FA([x], z3.Implies(wc.member[x], _out_of_first(L, x, k)), wc.member[x])),
+        ("all-outputs-of-the-first-ones", FA([i, x], z3.Implies(z3.And(0 <= i, i < k, out_names(L.elems[i])[x]), wc.member[x]), out_names(L.elems[i])[x])),
+    ]
